@@ -151,9 +151,9 @@ func (c *CoffFormat) Write(ctx *codegen.CodeGenContext, filePath string) error {
 
 		// 補助シンボルの書き込み (ここは変更なし、[]byte を直接書き込む)
 		if entry.Aux != nil {
-			if len(entry.Aux) != coffSymbolSize {
+			if len(entry.Aux) != coffSymbolSize*int(entry.Main.NumberOfAuxSymbols) {
 				symbolName := string(entry.Main.Name[:bytes.IndexByte(entry.Main.Name[:], 0)])
-				log.Printf("Error: Aux symbol for %s has incorrect size %d, expected %d", symbolName, len(entry.Aux), coffSymbolSize)
+				log.Printf("Error: Aux symbol for %s has incorrect size %d, expected %d", symbolName, len(entry.Aux), coffSymbolSize*int(entry.Main.NumberOfAuxSymbols))
 				return fmt.Errorf("aux symbol for %s has incorrect size %d", symbolName, len(entry.Aux))
 			}
 			// 補助シンボルはそのまま書き込む
@@ -303,16 +303,25 @@ func (c *CoffFormat) generateSymbolEntries(ctx *codegen.CodeGenContext, textData
 
 	// 1. .file シンボル
 	fileName := ctx.SourceFileName
+	// ファイル名は 18 バイトごとの補助レコードに格納する。18 バイトを超える名前は続きの補助レコードに入る
+	// (NumberOfAuxSymbols は 1 バイトなので最大 255 レコード)。
+	fileAuxCount := (len(fileName) + coffSymbolSize - 1) / coffSymbolSize
+	if fileAuxCount < 1 {
+		fileAuxCount = 1
+	}
+	if fileAuxCount > 255 {
+		fileAuxCount = 255
+	}
 	fileSymbol := CoffSymbol{
 		Name:               [8]byte{'.', 'f', 'i', 'l', 'e'},
 		Value:              0,
 		SectionNumber:      -2,   // IMAGE_SYM_DEBUG
 		Type:               0x00, // NULL
 		StorageClass:       103,  // IMAGE_SYM_CLASS_FILE
-		NumberOfAuxSymbols: 1,
+		NumberOfAuxSymbols: uint8(fileAuxCount),
 	}
 	// .file 補助シンボル
-	auxFileBytes := make([]byte, coffSymbolSize)
+	auxFileBytes := make([]byte, coffSymbolSize*fileAuxCount)
 	copy(auxFileBytes, fileName)
 	allEntries = append(allEntries, SymbolEntry{Main: fileSymbol, Aux: auxFileBytes})
 
